@@ -364,6 +364,44 @@ def run(ck):
             ck.violation("a symbol defined before its operand exists, used, and used again after the operand was replaced: %s, expected OK %s: %r" % (a.canon(), want.hex(), src),
                          {"mode": "asm", "arch": "z80", "source": src, "expected": "OK " + want.hex(), "harness_case": asm_case("z80", text=src)})
             break
+    # ---------------------------------------------------------------- deep nesting
+    # no bound on the number of pending operands: right-nested, left-nested and unary towers of 2..300 levels, computed
+    # at once and (through a name defined afterwards) at link time
+    dcases = []
+    depths = sorted(set(list(range(2, 40)) + [48, 63, 64, 65, 100, 127, 128, 129, 200, 255, 256, 257, 300]))
+    for nlev in depths:
+        for op in (["add", "sub", "xor", "mul", "or"] if nlev < 40 or thorough else ["sub"]):
+            vals_ = [rng.choice([1, 2, 3, 5, 7, 11]) for _ in range(nlev)]
+            right = ('n', vals_[-1])
+            for v in reversed(vals_[:-1]):
+                right = ('b', op, ('n', v), right)
+            left = ('n', vals_[0])
+            for v in vals_[1:]:
+                left = ('b', op, left, ('n', v))
+            dcases += [(right, False), (left, False), (right, True)]
+        tower = ('n', 5)
+        for k in range(nlev):
+            tower = ('u', ["neg", "inv", "not"][k % 3] if k % 7 else "neg", tower)
+        dcases.append((tower, False))
+    dtexts = []
+    for t, late in dcases:
+        e = X.render(t, rng, True)
+        if late:
+            dtexts.append("@dw ( %s + lt0 ) & $ffff , ( ( %s + lt0 ) >> 16 ) & $ffff\n@defn lt0, 0\n" % (e, e))
+        else:
+            dtexts.append("@dw ( %s ) & $ffff , ( ( %s ) >> 16 ) & $ffff\n" % (e, e))
+    d_spec = run_cases(model, ["ceval\t\t%s" % X.prefix(t) for t, _ in dcases])
+    d_impl = [AsmResult(r) for r in run_cases(harness, [asm_case("z80", text=tx) for tx in dtexts])]
+    ck.evaluations += len(dcases)
+    for (t, late), tx, sp, r in zip(dcases, dtexts, d_spec, d_impl):
+        ck.count("deep:" + r.kind)
+        f = sp.split("\t")
+        want = "OK " + le32(int(f[1])).hex() if f[0] == "VAL" else "DIAG"
+        ck.nontriv(tx)
+        if r.canon() != want:
+            ck.violation("assembling the deeply nested %r gives %s, C semantics gives %s" % (tx[:300], r.canon() + ((" " + (r.msg or "").replace("\n", " ")[-60:]) if not r.ok else ""), want),
+                         {"mode": "asm", "arch": "z80", "source": tx, "expected": want, "harness_case": asm_case("z80", text=tx)})
+            break
     # ---------------------------------------------------------------- chained conditionals
     # C's ?: is right-associative and its middle operand is a full expression: a ? b : c ? d : e and a ? b ? c : d : e
     # are legal C.  The assembler may refuse an unparenthesised chain with a diagnostic, but if it accepts one the value
